@@ -350,3 +350,39 @@ func VP_C13_Ignore() {
 	zzvp.Assert(vpSameSet(st.untracked, []string{untracked}), "untracked = exactly the files on disk that are neither tracked nor ignored nor inside .goit")
 	zzvp.Done()
 }
+
+// VP_C07_EmptyFirst: before the first commit, a staging area that was filled and emptied again (add, then rm; or add, then
+// restore is impossible without HEAD) equals the empty HEAD snapshot: the commit is refused and creates nothing.
+func VP_C07_EmptyFirst() {
+	vpInitRepo()
+	w := zzvp.Root()
+	n := 1 + zzvp.Choose(2)
+	var names []string
+	for i := 0; i < n; i++ {
+		p := vpPath("e"+string(rune('0'+i)), 2, 1)
+		for _, o := range names {
+			zzvp.Assume(o != p && !vpHasDirPrefix(p, o) && !vpHasDirPrefix(o, p))
+		}
+		zzvp.WriteFile(w+"/"+p, []byte("1"))
+		vpOK(zzvp.Run("add", p))
+		names = append(names, p)
+	}
+	keep := zzvp.Choose(2) == 1 && n == 2
+	for i, p := range names {
+		if keep && i == 0 {
+			continue
+		}
+		vpOK(zzvp.Run("rm", p))
+	}
+	nobj := len(vpAllObjects())
+	st := vpParseStatus(zzvp.Run("status").Out)
+	r := zzvp.Run("commit", "-m", "first")
+	_, exists, _ := vpBranch("main")
+	if keep {
+		zzvp.Assert(len(st.staged) == 1 && r.Exit == 0 && exists, "commit succeeds iff something is staged")
+	} else {
+		zzvp.Assert(len(st.staged) == 0, "nothing is listed as staged when the staging area equals the (empty) HEAD snapshot")
+		zzvp.Assert(r.Exit == 1 && !exists && len(vpAllObjects()) == nobj, "a commit while the staging area equals the HEAD snapshot is refused, creates no commit and moves no branch")
+	}
+	zzvp.Done()
+}
